@@ -56,7 +56,17 @@ def enc_unit(m):
     try:
         mem = list(m._mem_acl)                            # private attribute
     except AttributeError:
-        mem = [c for c in m.capabilities if m.needs_mem(c)]     # the public view of the same information
+        mem = None
+        try:                                              # renamed: the one remaining sequence-valued attrs field
+            import attr
+            rest = [f.name for f in attr.fields(type(m)) if f.name not in ("name", "width", "capabilities", "lock_info")]
+            vals = [getattr(m, n) for n in rest if isinstance(getattr(m, n), (tuple, list, set, frozenset))]
+            if len(vals) == 1:
+                mem = sorted(vals[0])
+        except Exception:  # noqa: BLE001
+            mem = None
+        if mem is None:
+            mem = [c for c in m.capabilities if m.needs_mem(c)]     # the public view (kept capabilities only)
     return [m.name, int(m.width), list(m.capabilities), bool(m.lock_info.rd_lock),
             bool(m.lock_info.wr_lock), mem]
 
